@@ -136,6 +136,17 @@ def _check_with(s, parsers):
                 fails.append(('component slice differs' + tag, {'input': s, 'id': c.id, 'got': repr(c.slice),
                                                                 'expected': pathref.spec_to_str(r[2])}))
                 break
+        # a path object handed out stays what it was when the parser goes on to other expressions
+        before = ([(c.separator, c.id, repr(c.slice)) for c in got.components], repr(got.subset_slice), str(got))
+        try:
+            parser.parse('@[7]/ZZ9[1:2]/YY8.XX7[3]')
+        except Exception:
+            pass
+        after = ([(c.separator, c.id, repr(c.slice)) for c in got.components], repr(got.subset_slice), str(got))
+        if after != before:
+            fails.append(('a path handed out earlier changes when the same parser parses another expression' + tag,
+                          {'input': s, 'before': before[2], 'after': after[2]}))
+            continue
         # printing and parsing the printout gives the same path
         try:
             text = str(got)
